@@ -162,6 +162,33 @@ def entry_point_problems(pms, fmt, obj, t1, tmpdir, main_variant=None):
         ta, tb, tc = a.dumps(), b.dumps(), c.dumps()
         if not (ta == tb == tc):
             probs.append("load(file object) / load(path) / loads() give different objects (their dumps differ)")
+        # the same through paths spelled relative to the working directory, with './', '//' and '..'
+        cwd = os.getcwd()
+        os.chdir(tmpdir)
+        try:
+            os.makedirs("rel-sub", exist_ok=True)
+            rel = "./rel-sub//entry-rel-%s" % fmt
+            if main_variant is not None:
+                obj.dump(rel, main_variant=main_variant)
+            else:
+                obj.dump(rel)
+            with open(os.path.join(tmpdir, "rel-sub", "entry-rel-%s" % fmt)) as f:
+                if f.read() != t1:
+                    probs.append("dump(relative path) bytes differ from dumps()")
+            d = new_object(pms, fmt)
+            d.load("rel-sub/../rel-sub/entry-rel-%s" % fmt)
+            if d.dumps() != tc:
+                probs.append("load(relative path) gives a different object")
+        finally:
+            os.chdir(cwd)
+            try:
+                os.unlink(os.path.join(tmpdir, "rel-sub", "entry-rel-%s" % fmt))
+            except OSError:
+                pass
+            try:
+                os.rmdir(os.path.join(tmpdir, "rel-sub"))
+            except OSError:
+                pass
     except Exception as e:
         probs.append("entry points raised %s: %s" % (type(e).__name__, str(e)[:150]))
     finally:
